@@ -10,6 +10,8 @@ EXTENDS RsStore
 Pos(seq, x) == CHOOSE i \in 1..Len(seq) : seq[i] = x
 NoDup(seq) == \A i, j \in 1..Len(seq) : seq[i] = seq[j] => i = j
 IsPrefixOf(s, t) == Len(s) <= Len(t) /\ \A i \in 1..Len(s) : s[i] = t[i]
+RECURSIVE Dedup(_)
+Dedup(s) == IF Len(s) <= 1 THEN s ELSE IF s[1] = s[2] THEN Dedup(Tail(s)) ELSE <<s[1]>> \o Dedup(Tail(s))
 IsSegment(s, t) == \E i \in 0..Len(t) : i + Len(s) <= Len(t) /\ \A k \in 1..Len(s) : s[k] = t[i + k]
 RECURSIVE IsSubseq(_, _)
 IsSubseq(s, t) == IF s = <<>> THEN TRUE
@@ -112,8 +114,11 @@ C09_Notified == RDone => \A s \in DirectSubs : s \in h.registered /\ s \notin h.
     \A i \in 1..Len(h.exp) : h.exp[i].a \in h.mustSee[s] => \E k \in 1..Len(h.ntf[s]) : h.ntf[s][k] = h.exp[i]
 C09_SilentAfter_strict == h.late = {}
 C09_SilentAfter == h.lateBad = {}      \* modulo F5: only the notification in flight may still arrive
-C09_ReleasedAtMostOnce == \A s \in Subs : h.unsubd[s] <= 1
-C09_Released == Quiet => \A s \in h.registered : s \notin h.lateReg /\ SubKind[s] # "sel" => h.unsubd[s] = 1
+\* once per registration (h.regs[s] = 1 unless the same object is registered again)
+C09_ReleasedAtMostOnce == \A s \in Subs : h.unsubd[s] <= h.regs[s]
+C09_Released == Quiet => \A s \in h.registered : s \notin h.lateReg /\ SubKind[s] # "sel" => h.unsubd[s] = h.regs[s]
+\* a subscriber registered k times is called k times for an action, and not at all after unsubscribe()
+C09_DupStream == \A s \in DirectSubs : IsSegment(Dedup(h.ntf[s]), h.exp)
 
 (* C10: channeled subscribers *)
 C10_OwnThread == lbl.ev = "cb" /\ lbl.d.what \in {"notify", "unsub"} /\ SubKind[lbl.d.who] = "chan" => lbl.t = ChName(lbl.d.who)
